@@ -2636,9 +2636,19 @@ class DiskObjectStore(PackBasedObjectStore):
         if len(sha) == self.object_format.hex_length:
             sha = hex_to_sha(cast(ObjectID, sha))
 
+        # The MIDX only says which pack is supposed to hold the object. It can
+        # be stale (the pack was removed by a repack or gc that did not rewrite
+        # the MIDX) or belong to other packs altogether, so a hit counts only
+        # if that pack is still there and lists the object.
         midx = self.get_midx()
-        if midx is not None and sha in midx:
-            return True
+        if midx is not None:
+            result = midx.object_offset(sha)
+            if result is not None:
+                try:
+                    if sha in self._get_pack_by_name(result[0]):
+                        return True
+                except (KeyError, PackFileDisappeared):
+                    pass
 
         # Fall back to checking individual packs
         return super().contains_packed(sha)
